@@ -868,4 +868,186 @@ mod n {
             },
         );
     }
+
+    // ---- C17: schedules -----------------------------------------------------------------------------------
+    #[test]
+    fn n_c17_week_expand() {
+        drive("C17.week.expand", "ScheduleWeek::to_day_sch: 0..3 runs, run lengths 0..7, 3 daily schedules", |c| {
+            let n = c.pick(4);
+            let mut runs = vec![];
+            for _ in 0..n {
+                let d = c.pick(3) as u128;
+                let k = c.pick(8) as u32;
+                runs.push((0x50 + d, k));
+            }
+            c.note(format!("{:?}", runs));
+            let w = schedw(0x40, &runs);
+            let got = w.to_day_sch();
+            let mut want = vec![];
+            for (d, k) in &runs {
+                for _ in 0..*k {
+                    want.push(uid(*d));
+                }
+            }
+            c.check("C17.week.expand", got == want, || format!("expansion {:?} want {:?}", got.iter().map(|u| u.as_u128()).collect::<Vec<_>>(), want.iter().map(|u| u.as_u128()).collect::<Vec<_>>()));
+            c.check("C17.week.length", got.len() as u32 == runs.iter().map(|r| r.1).sum::<u32>(), || format!("length {}", got.len()));
+            if !want.is_empty() {
+                c.nontrivial(format!("{:?}", runs));
+            }
+            c.sample(|| format!("{:?} -> {} days", runs, got.len()));
+        });
+    }
+
+    fn year_db() -> SchedulesDb {
+        let mut db = SchedulesDb::default();
+        // W0: seven different days, W1: 5 + 2, W2: only three days (malformed), W3: one schedule all week
+        db.week.push(schedw(0x40, &[(0x50, 1), (0x51, 1), (0x52, 1), (0x53, 1), (0x54, 1), (0x55, 1), (0x56, 1)]));
+        db.week.push(schedw(0x41, &[(0x57, 5), (0x58, 2)]));
+        db.week.push(schedw(0x42, &[(0x59, 3)]));
+        db.week.push(schedw(0x43, &[(0x5A, 7)]));
+        for d in 0x50..=0x5Au128 {
+            db.day.push(schedd(d, (d - 0x50) as f32 / 10.0));
+        }
+        db
+    }
+
+    #[test]
+    fn n_c17_year_expand() {
+        drive("C17.year.expand", "SchedulesDb::get_year_as_day_sch / year_values: 1..3 periods, lengths in {0,1,6,7,8,31,358}, weekly schedules {7 distinct days, 5+2, one for all, 3-day (malformed)}", |c| {
+            let mut db = year_db();
+            let np = 1 + c.pick(3);
+            let mut periods = vec![];
+            for _ in 0..np {
+                let w = c.of(&[0x40u128, 0x41, 0x43, 0x42]);
+                let len = c.of(&[0u32, 1, 6, 7, 8, 31, 358]);
+                periods.push((w, len));
+            }
+            c.note(format!("{:?}", periods));
+            db.year.push(sched(0x30, &periods));
+            let got = db.get_year_as_day_sch(uid(0x30));
+            let total: u32 = periods.iter().map(|p| p.1).sum();
+            c.check("C17.year.length", got.len() as u32 == total, || format!("{} days, period lengths add up to {}", got.len(), total));
+            // weekday alignment: day k of the year (0-based, year starts on a Monday) takes slot k mod 7 of its period's week
+            let all7 = periods.iter().all(|p| p.0 != 0x42);
+            if all7 && got.len() as u32 == total {
+                let mut k = 0usize;
+                let mut ok = true;
+                let mut bad = String::new();
+                for (w, len) in &periods {
+                    let week = db.get_week(uid(*w)).unwrap().to_day_sch();
+                    for _ in 0..*len {
+                        if got[k] != week[k % 7] {
+                            ok = false;
+                            bad = format!("day {} is {:x} want slot {} = {:x}", k, got[k].as_u128(), k % 7, week[k % 7].as_u128());
+                        }
+                        k += 1;
+                    }
+                }
+                c.check("C17.year.weekday_alignment", ok, || bad.clone());
+                // hourly values: 24 per day, in order
+                let vals = db.year_values(uid(0x30));
+                c.check("C17.year.values", vals.len() == 24 * got.len() && got.iter().enumerate().all(|(i, d)| vals[24 * i] == db.get_day(*d).unwrap().values[0]), || format!("{} hourly values for {} days", vals.len(), got.len()));
+            }
+            // an unknown yearly schedule expands to nothing
+            c.check("C17.year.unknown", db.get_year_as_day_sch(uid(0x3F)).is_empty(), || "unknown schedule expands to days".to_string());
+            if total > 0 {
+                c.nontrivial(format!("{:?}", periods));
+            }
+            c.sample(|| format!("{:?} -> {} days", periods, got.len()));
+        });
+    }
+
+    // ---- C17: occupied time and mean internal load -----------------------------------------------------------
+    fn hours(from: usize, to: usize, v: f32) -> Vec<f32> {
+        (0..24).map(|h| if h >= from && h < to { v } else { 0.0 }).collect()
+    }
+
+    #[test]
+    fn n_c17_occupancy() {
+        drive("C17.occupancy", "EnergyProps::from(&Model) occupancy figures: 3 spaces each over loads {none, L0, L1} x (space 1: in/out, space 2: habitable/uninhabitable), multipliers {1,2}; L1 schedule {same as L0, evening, overlapping}; weekly patterns work-week / every day", |c| {
+            let mut m = empty_model();
+            // daily schedules
+            let d_work = ScheduleDay { id: uid(0x50), name: "work".into(), values: hours(8, 17, 1.0) };
+            let d_zero = ScheduleDay { id: uid(0x51), name: "zero".into(), values: vec![0.0; 24] };
+            let d_eve = ScheduleDay { id: uid(0x52), name: "eve".into(), values: hours(18, 23, 0.5) };
+            let d_ovl = ScheduleDay { id: uid(0x53), name: "ovl".into(), values: hours(15, 20, 0.25) };
+            m.schedules.day = vec![d_work.clone(), d_zero.clone(), d_eve.clone(), d_ovl.clone()];
+            m.schedules.week.push(schedw(0x40, &[(0x50, 5), (0x51, 2)]));
+            m.schedules.week.push(schedw(0x41, &[(0x52, 7)]));
+            m.schedules.week.push(schedw(0x42, &[(0x53, 7)]));
+            m.schedules.year.push(sched(0x30, &[(0x40, 365)]));
+            m.schedules.year.push(sched(0x31, &[(0x41, 100), (0x41, 265)]));
+            m.schedules.year.push(sched(0x32, &[(0x42, 365)]));
+            let l1_sched = c.of(&[0x30u128, 0x31, 0x32]);
+            m.loads.push(SpaceLoads { id: uid(0xB0), name: "L0".into(), area_per_person: 10.0, people_schedule: Some(uid(0x30)), people_sensible: 6.0, people_latent: 3.0, equipment: 4.0, equipment_schedule: Some(uid(0x30)), lighting: 5.0, lighting_schedule: Some(uid(0x31)) });
+            m.loads.push(SpaceLoads { id: uid(0xB1), name: "L1".into(), area_per_person: 10.0, people_schedule: Some(uid(l1_sched)), people_sensible: 2.0, people_latent: 1.0, equipment: 1.5, equipment_schedule: None, lighting: 7.0, lighting_schedule: Some(uid(l1_sched)) });
+            m.cons.materials.push(material(0xE0, 0.5));
+            m.cons.wallcons.push(wallcons(0xC0, &[(0xE0, 0.3)]));
+            let areas = [20.0f32, 15.0, 6.0];
+            let dims = [(4.0f32, 5.0f32), (3.0, 5.0), (2.0, 3.0)];
+            let mut used: Vec<(usize, u128, f32)> = vec![]; // (space, loads, multiplier) of habitable inside spaces with loads
+            let mut desc = vec![];
+            for i in 0..3usize {
+                let l = c.of(&[None, Some(0xB0u128), Some(0xB1)]);
+                let inside = if i == 1 { c.flag() } else { true };
+                let kind = if i == 2 { c.of(&[SpaceType::CONDITIONED, SpaceType::UNINHABITED]) } else { SpaceType::UNCONDITIONED };
+                let mult = if i == 0 { c.of(&[1.0f32, 2.0]) } else { 1.0 };
+                let mut sp = space(0xA0 + i as u128, inside, kind, mult, 3.0);
+                sp.loads = l.map(uid);
+                m.spaces.push(sp);
+                m.walls.push(wall(1 + i as u128, BoundaryType::GROUND, uid(0xA0 + i as u128), None, uid(0xC0), 180.0, 0.0, rect(dims[i].0, dims[i].1), None));
+                desc.push(format!("s{}: loads={:?} inside={} {:?} x{}", i, l.map(|x| x - 0xB0), inside, kind, mult));
+                if let Some(l) = l {
+                    if inside && kind != SpaceType::UNINHABITED {
+                        used.push((i, l, mult));
+                    }
+                }
+            }
+            c.note(format!("L1 sched {:x} | {}", l1_sched, desc.join(" | ")));
+            let p = energy::EnergyProps::from(&m);
+            // --- oracle: occupied hours
+            let day_for = |year: u128, k: usize| -> &ScheduleDay {
+                match year {
+                    0x30 => if k % 7 < 5 { &d_work } else { &d_zero },
+                    0x31 => &d_eve,
+                    _ => &d_ovl,
+                }
+            };
+            let people_sched = |l: u128| if l == 0xB0 { 0x30u128 } else { l1_sched };
+            let mut hours_in_use = 0u32;
+            for k in 0..365usize {
+                for h in 0..24usize {
+                    if used.iter().any(|(_, l, _)| day_for(people_sched(*l), k).values[h] != 0.0) {
+                        hours_in_use += 1;
+                    }
+                }
+            }
+            c.check("C17.occupancy.hours", p.global.occ_spaces_hours_in_use == hours_in_use, || format!("occupied hours {} want {}", p.global.occ_spaces_hours_in_use, hours_in_use));
+            // --- oracle: mean internal load (area weighted), schedule averages over the year
+            let avg = |year: u128| -> f64 {
+                (0..365usize).map(|k| day_for(year, k).values.iter().map(|v| *v as f64).sum::<f64>() / 24.0).sum::<f64>() / 365.0
+            };
+            let load_avg = |l: u128| -> f64 {
+                if l == 0xB0 {
+                    avg(0x30) * 6.0 + avg(0x31) * 5.0 + avg(0x30) * 4.0
+                } else {
+                    avg(l1_sched) * 2.0 + avg(l1_sched) * 7.0 + 0.0 * 1.5
+                }
+            };
+            let (mut tl, mut ta) = (0.0f64, 0.0f64);
+            for (i, l, mu) in &used {
+                tl += load_avg(*l) * areas[*i] as f64 * *mu as f64;
+                ta += areas[*i] as f64 * *mu as f64;
+            }
+            let want = if ta > 0.0 { tl / ta } else { 0.0 };
+            c.check("C17.occupancy.mean_load", approx64(p.global.occ_spaces_average_load, want, 1e-4, 1e-5), || format!("mean internal load {} want {}", p.global.occ_spaces_average_load, want));
+            for (lid, l) in [(0xB0u128, 0usize), (0xB1, 1)] {
+                c.check("C17.loads_avg", approx64(p.loads[&uid(lid)].loads_avg, load_avg(lid), 1e-4, 1e-5), || format!("loads_avg of L{} = {} want {}", l, p.loads[&uid(lid)].loads_avg, load_avg(lid)));
+            }
+            if !used.is_empty() {
+                c.nontrivial(format!("{:x} {:?}", l1_sched, used));
+            }
+            c.sample(|| format!("L1 sched {:x} | {} -> {} h, {} W/m2", l1_sched, desc.join(" | "), p.global.occ_spaces_hours_in_use, p.global.occ_spaces_average_load));
+        });
+    }
 }
